@@ -25,10 +25,12 @@ import (
 	"os"
 	"path/filepath"
 	"regexp"
+	"runtime"
 	"sort"
 	"strings"
 	"sync"
 	"sync/atomic"
+	"syscall"
 	"time"
 
 	"verifharness/core"
@@ -799,6 +801,39 @@ func (c *ctx) nestFamily(wg *sync.WaitGroup) []nestKind {
 	return hdr.Kinds
 }
 
+// loadFactor: how much wall-clock time a thread that only computes needs per second of CPU time it gets
+func loadFactor() float64 {
+	worst := 1.0
+	for k := 0; k < 3; k++ {
+		runtime.LockOSThread()
+		var t0, t1 syscall.Rusage
+		syscall.Getrusage(1 /* RUSAGE_THREAD */, &t0)
+		w0 := time.Now()
+		x := uint64(1)
+		for {
+			for i := 0; i < 2000000; i++ {
+				x = x*6364136223846793005 + 1442695040888963407
+			}
+			syscall.Getrusage(1, &t1)
+			cpu := float64(t1.Utime.Sec-t0.Utime.Sec) + float64(t1.Utime.Usec-t0.Utime.Usec)/1e6
+			if cpu >= 0.12 || time.Since(w0) > 3*time.Second {
+				if cpu > 0.01 {
+					if f := time.Since(w0).Seconds() / cpu; f > worst {
+						worst = f
+					}
+				}
+				break
+			}
+		}
+		runtime.UnlockOSThread()
+		_ = x
+	}
+	if worst > 12 {
+		worst = 12
+	}
+	return worst
+}
+
 // ---------------------------------------------------------------------------
 
 func Run(r *core.Run) {
@@ -811,12 +846,17 @@ func Run(r *core.Run) {
 		c.fastTmp = d
 		defer os.RemoveAll(d)
 	}
-	budget := r.Pick(85, 18*60)
+	// The dispatch budget is 85 s (thorough 18 min) on a machine that gives a busy thread a whole core.
+	// On an oversubscribed machine the same amount of work is wanted, so the budget is stretched by the
+	// measured share: wall-clock time a pure CPU loop needs per second of its own CPU time (1..12).
+	load := loadFactor()
+	budget := int(float64(r.Pick(85, 18*60)) * load)
 	if b := os.Getenv("C16_BUDGET_SEC"); b != "" {
-		// on an overloaded machine: same work, more wall-clock time
 		fmt.Sscan(b, &budget)
 	}
+	r.Set("machine_load_factor", load)
 	r.Set("dispatch_budget_sec", budget)
+	r.Logf("load factor %.1f, dispatch budget %d s", load, budget)
 	c.deadline = time.Now().Add(time.Duration(budget) * time.Second)
 	// the bulk of this check is exploration (enumerated and scripted inputs, no coverage feedback); only the
 	// fault model of part (i) is model checking proper.  The weaker level is claimed for the whole.
@@ -830,7 +870,7 @@ func Run(r *core.Run) {
 	r.Assume("inputs inside a batch child are only screened (diagnostic texts, a 20 s wall-clock monitor, the journal of inputs in progress); every verdict about time or a crash comes from re-running the single (input, loader, flag set) alone in a fresh process")
 	r.Assume("no coverage feedback: enumeration and scripted mutation only (DESIGN.md section 6)")
 
-	c.pool(r.Pick(5, 8))
+	c.pool(r.Pick(6, 8))
 	var wg sync.WaitGroup
 	wg.Add(1)
 	go func() { defer wg.Done(); faults(c) }()
